@@ -26,10 +26,12 @@ func runC01(c *core.Ctx) {
 	h.setTermOnlyOnHigherTerm("C01.2c setTerm-call-sites")
 	c.Clause("C01.3 only a counted quorum of success replies of the current election makes a leader")
 	h.leaderOnlyByMajority("C01.3 leader-by-majority")
+	h.candidateReleaseRetiresChannel("C01.3b stale-replies-not-counted")
 	c.Clause("C01.4 candidate persists (term+1, self) before requesting votes")
 	h.selfVoteBeforeCampaign("C01.4 self-vote-first")
 	c.Clause("C01.5 every site observing a higher term adopts it and steps down")
 	h.stepDownOnHigherTerm("C01.5 step-down")
+	h.leaderReleaseCleansUp("C01.6 ex-leader-stops-acting", "update-channel")
 }
 
 func runC17(c *core.Ctx) {
@@ -42,6 +44,7 @@ func runC17(c *core.Ctx) {
 	}
 	c.Clause("C17.2 a vote reply resets the election timer only when the vote was granted")
 	h.resetTimerOnlyOnGrant("C17.2 reset-timer")
+	h.followerTimerProtocol("C17.2b timer-protocol")
 	c.Clause("C17.3 Raft.leader is written only through setLeader")
 	h.onlyWriters("C17.3 who-may-write", "raft:Raft.leader", "(*Raft).setLeader")
 	c.Clause("C17.4 (necessary condition of catch-up only, not liveness) a rejected probe strictly lowers nextIndex; a compacted entry leads to snapshot installation")
@@ -52,4 +55,8 @@ func runC17(c *core.Ctx) {
 	h.commitThenApply("C17.6 commit-then-apply")
 	h.canCommitComplete("C17.6b canCommit-complete")
 	h.stepDownOnlyWithoutQuorum("C17.7 step-down-only-without-quorum")
+	h.leaderInitEstablishes("C17.8 leadership-start", "leader.node", "leader.startIndex", "leader.replUpdateCh", "noop")
+	h.leaderReleaseCleansUp("C17.8b leadership-end", "leader-hint")
+	h.leaderCommitSkipJustified("C17.6c leader-commit-skip-justified")
+	h.configActionProgress("C17.9 membership-progress", "progress")
 }
